@@ -8,6 +8,7 @@ waiting after the server's death on an abstract clock.
 -/
 import QbVerif.Lemmas.IpcLifeSrv
 import QbVerif.Model.IpcLifeClient
+import QbVerif.Lemmas.IpcLifeCl
 
 namespace QbVerif.IpcLife
 
@@ -188,6 +189,38 @@ theorem server_death_bounded_event_recv (c : Cl) (T : Option Nat) (hstuck : c.st
     cases T with
     | none => simp [hh, hstuck]; omega
     | some d => simp [hh]; split <;> simp [hstuck] <;> omega
+
+/-- server_death_bounded for `qb_ipcc_sendv_recv(-1)`: it never gets stuck, answers with a disconnect
+    error (or with a response that was queued), and returns no later than `QB_IPC_MAX_WAIT_MS` after the
+    server's death — with the server dead at the start: at once when the send fails, else within
+    2000 ms + the `poll(0)` of the setup socket -/
+theorem server_death_bounded_sendv_recv (c : Cl) (hconn : c.conn = true) (hstuck : c.stuck = false) :
+    (sendvRecv c none).1.stuck = false ∧
+    ((sendvRecv c none).2 = .disc ∨ ((sendvRecv c none).2 = .size ∧ 0 < c.respQ)) ∧
+    (sendvRecv c none).1.now ≤ max c.now c.deathAt + MAX_WAIT := by
+  by_cases hh : c.hup = true
+  · have : sendvRecv c none = ({ c with conn := false }, .disc) := by simp [sendvRecv, ipccSend, hh]
+    rw [this]
+    exact ⟨hstuck, Or.inl rfl, by dsimp only; omega⟩
+  · have : sendvRecv c none = recvLoop (c.deathAt - c.now + 0 + 2) c none 0 := by
+      simp [sendvRecv, ipccSend, hh]
+    rw [this]
+    exact recvLoop_forever _ c 0 hconn hstuck (by omega)
+
+/-- finite_timeout_respected for `qb_ipcc_sendv_recv(d)`: back by the deadline, never stuck -/
+theorem finite_timeout_respected_sendv_recv (c : Cl) (d : Nat) (hconn : c.conn = true) (hstuck : c.stuck = false) :
+    (sendvRecv c (some d)).1.stuck = false ∧ Rc.final (sendvRecv c (some d)).2 = true ∧
+    (sendvRecv c (some d)).1.now ≤ c.now + d := by
+  by_cases hh : c.hup = true
+  · have : sendvRecv c (some d) = ({ c with conn := false }, .disc) := by simp [sendvRecv, ipccSend, hh]
+    rw [this]
+    exact ⟨hstuck, rfl, by dsimp only; omega⟩
+  · have : sendvRecv c (some d) = recvLoop (c.deathAt - c.now + d + 2) c (some d) d := by
+      simp [sendvRecv, ipccSend, hh]
+    rw [this]
+    exact recvLoop_finite _ c d d hconn hstuck (by omega)
+
+example : (sendvRecv { deathAt := 4500 } none) = ({ conn := false, now := 6000, deathAt := 4500 }, .disc) := by decide
 
 end Client
 end QbVerif.IpcLife
